@@ -3,6 +3,7 @@ import PygModel.Bind
 import PygModel.Cache
 import PygModel.Wrap
 import PygModel.WrapHist
+import PygModel.WrapLoops
 
 namespace Pyg.BindDriver
 open Pyg
@@ -104,6 +105,13 @@ def handle1 (op : String) (args : List Sexp) : Option String := do
       let fn := mkMany ds { chain := [], base := 0 }
       -- a `loops` layer that receives a list / tuple / dict of a looped type: outside the model (C19's subject) => bad-op
       if inDomain s fn.chain c then pure (reply (evalChain s recBody fn.chain c)) else Option.none
+  | "stackx", [s, ds, a, k] =>
+      -- round k6: the model whose `loops` layers loop over a list / tuple / dict of one of their types (WrapLoops.lean); answers
+      -- every line; inside the domain it is `evalChain` (theorem `evalChainL_in_domain`)
+      let s ← sigOf (← Val.ofSexp s); let ds ← decosOf (← Val.ofSexp ds)
+      let c ← callOf (← Val.ofSexp a) (← Val.ofSexp k)
+      let fn := mkMany ds { chain := [], base := 0 }
+      pure (reply (evalChainL s recBody fn.chain c))
   | "stackhist", [s, ds, cs] =>
       let s ← sigOf (← Val.ofSexp s); let ds ← decosOf (← Val.ofSexp ds)
       let fn := mkMany ds { chain := [], base := 0 }
